@@ -194,10 +194,17 @@ func (p c12) Exec(x *Exec, ci interface{}) *Verdict {
 			case "wait":
 				if err := bw.Wait(); err != nil {
 					werr = &apiErr{i, fmt.Sprintf("Wait() = %v", err)}
-				} else if sawFlush && failedAt < 0 && viol == nil {
+				} else if sawFlush && viol == nil {
 					// Flush followed by Wait returned nil: everything written
-					// before that Flush is in the delivered prefix.
-					if v := pc.check(file.Data, started, "after Wait"); v != nil {
+					// before that Flush is in the delivered prefix. This holds
+					// with an injected fault too: if a write failed, either the
+					// flushed data had all been delivered before it, or Wait
+					// must not return nil.
+					var v *Violation
+					if failedAt < 0 {
+						v = pc.check(file.Data, started, "after Wait")
+					}
+					if v != nil {
 						viol = v
 					} else if pc.payLen < beforeLastFlush {
 						durableBad = fmt.Sprintf("op %d: Flush then Wait returned nil but only %d of the %d bytes written before the Flush have been delivered", i, pc.payLen, beforeLastFlush)
